@@ -1,5 +1,6 @@
 import Mqtt5V.Gen.Timing
 import Mqtt5V.Proofs.TraceKA
+import Mqtt5V.Proofs.TraceRd
 /-! # C12 — keep-alive: PINGREQ every negotiated interval; 1.5 × silence means reconnect (timing rules)
 
 The three expressions that decide the behaviour are *translated* from the source on every run
@@ -101,6 +102,35 @@ example : TraceKA.accepts [.cfg 5, .run, .connUp (some 2), .refresh, .rd (some 7
 example : TraceKA.accepts [.cfg 0, .run, .rd none, .adv 100000, .eol] = true := by decide
 example : TraceKA.accepts [.cfg 5, .run, .wr false false, .adv 5000, .eol, .adv 9000, .eol, .wrOk, .wr true false, .eol] = true := by decide   -- transport latency: the PINGREQ waits for the write in progress
 example : (TraceKA.obs [.cfg 5, .run, .eol, .adv 4999]).running = true ∧ 0 < (TraceKA.obs [.cfg 5, .run, .eol, .adv 4999]).kArm := by decide
+
+
+/-! ### the silence limit itself (`Model/TraceRd.lean`: the timed read of the real stream layer, every timed H-stream transcript must be accepted) -/
+
+/-- **C12 end to end (abandoned at 1.5 · K, never earlier, never for K = 0)**: in every accepted timed history of the stream layer, the read
+timer gives a connection up only while a read with a limit is in progress and at least that limit has passed since the read began — both read
+off the events alone.  With `composed_read_timeout_rule` (the client starts every read with the limit 1.5 · K, none for K = 0) this is the
+clause "abandons the connection when it has waited 1.5·K seconds for data without a single byte arriving, never earlier; with K = 0 never". -/
+theorem composed_abandon_only_at_the_limit (tr : List TraceRd.Ev) (hacc : TraceRd.accepts (tr ++ [.abandon]) = true) :
+    ∃ t0 lim, TraceRd.readOf tr = some (t0, some lim) ∧ t0 + lim ≤ TraceRd.nowOf tr := by
+  simp only [TraceRd.accepts, Option.isSome_iff_exists] at hacc
+  obtain ⟨s, hs⟩ := hacc
+  exact Mqtt5V.Proofs.TraceRd.abandon_only_at_the_limit hs
+
+/-- **… and no later**: whenever the execution context has run out of ready handlers, a read with a limit that is still in progress began less
+than its limit ago. -/
+theorem composed_pending_read_within_limit (tr : List TraceRd.Ev) (hacc : TraceRd.accepts (tr ++ [.eol]) = true) (t0 lim : Nat)
+    (hr : TraceRd.readOf tr = some (t0, some lim)) : TraceRd.nowOf tr < t0 + lim := by
+  simp only [TraceRd.accepts, Option.isSome_iff_exists] at hacc
+  obtain ⟨s, hs⟩ := hacc
+  exact Mqtt5V.Proofs.TraceRd.pending_read_within_limit hs t0 lim hr
+
+example : TraceRd.accepts [.start (some 7500), .eol, .adv 7499, .eol, .adv 1, .abandon, .eol] = true := by decide
+example : TraceRd.accepts [.start (some 7500), .eol, .adv 7499, .abandon] = false := by decide      -- one millisecond early
+example : TraceRd.accepts [.start (some 7500), .eol, .adv 7500, .eol] = false := by decide          -- the limit passed and the read is still pending
+example : TraceRd.accepts [.start none, .eol, .adv 1000000, .eol] = true := by decide               -- keep-alive 0: never
+example : TraceRd.accepts [.start none, .eol, .adv 1000000, .abandon] = false := by decide
+example : TraceRd.accepts [.start (some 3000), .adv 2000, .finish, .start (some 3000), .adv 2999, .eol] = true := by decide   -- every byte restarts the wait
+example : TraceRd.readOf [.start (some 7500), .eol, .adv 7499] = some (0, some 7500) ∧ TraceRd.nowOf [.start (some 7500), .eol, .adv 7499] = 7499 := by decide
 
 end ComposedModel
 
